@@ -3,7 +3,7 @@
 (* per holder, every population of NProvs providers over ProvTypes, every iteration order.       *)
 EXTENDS MCResCommon
 TypePts == {Pt(k, "wire", 0, FALSE, {}, r) : k \in {"iface", "siface", "ptr", "sptr"}, r \in BOOLEAN}
-           \cup {Pt(k, "func", 0, FALSE, {}, r) : k \in {"iface", "siface"}, r \in BOOLEAN}
+           \cup {PtF(k, f, r) : k \in {"iface", "siface"}, f \in {"Mark", "Tick"}, r \in BOOLEAN}
 PtLists == {<<a>> : a \in TypePts} \cup {<<a, b>> : a \in TypePts, b \in TypePts}
 \* enumerated by nested quantification: building the set of scenario records first is far slower
 MCInit == \E p \in Pops, l \in PtLists : InitWith([prov |-> p, pts |-> l])
